@@ -219,9 +219,23 @@ func haltSite(h *world.Halt) string {
 			return f
 		}
 	}
-	e := firstLine(h.Err)
-	if len(e) > 80 {
-		e = e[:80]
+	// numbers (amounts, ids, heights) are replaced so that the key names the failure class, not one instance
+	var b strings.Builder
+	prevDigit := false
+	for _, r := range firstLine(h.Err) {
+		if r >= '0' && r <= '9' {
+			if !prevDigit {
+				b.WriteByte('N')
+			}
+			prevDigit = true
+			continue
+		}
+		prevDigit = false
+		b.WriteRune(r)
+	}
+	e := b.String()
+	if len(e) > 90 {
+		e = e[:90]
 	}
 	return "err:" + e
 }
